@@ -111,11 +111,16 @@ func Schema(rng *rand.Rand, c *SchemaCfg, depth int) jx.Obj {
 			its = append(its, sub())
 		}
 		s["items"] = its
-		switch rng.IntN(4) {
+		switch rng.IntN(5) {
 		case 0:
 			s["additionalItems"] = sub()
 		case 1:
 			s["additionalItems"] = true
+		case 2:
+			if c.Extended { // the keyword on its own
+				delete(s, "items")
+				s["additionalItems"] = sub()
+			}
 		}
 		return s
 	case "allOf", "anyOf", "oneOf":
